@@ -146,9 +146,9 @@ def parse_tlc(out):
     m = re.search(r"Invariant (\S+) is violated", out)
     if m:
         res["violated"] = m.group(1)
-    m = re.search(r"Action property (\S+) is violated|Temporal properties were violated", out)
+    m = re.search(r"Action property (\S+) is violated|Temporal property (\S+) was violated|Temporal properties were violated", out)
     if m and not res["violated"]:
-        res["violated"] = m.group(1) or "temporal"
+        res["violated"] = m.group(1) or m.group(2) or "temporal"
     if "Deadlock reached" in out:
         res["deadlock"] = True
         res["violated"] = res["violated"] or "Deadlock"
